@@ -39,6 +39,11 @@ func (ft *ftr) instr(steps *[]step, ins ssa.Instruction, cur map[*cell]ex) error
 		}
 		return ft.bind(steps, ins, kScalar, x.e)
 	case *ssa.Alloc:
+		if cl := ft.bigCellOf[ins]; cl != nil {
+			cur[cl] = lit("(0 : Int)")
+			ft.env[ins] = value{k: kBig, ty: ins.Type(), bcell: cl, owned: true}
+			return nil
+		}
 		if isBigInt(ins.Type().(*types.Pointer).Elem()) {
 			if err := ft.bind(steps, ins, kBig, lit("(0 : Int)")); err != nil {
 				return ft.refuse(ins, "%v", err)
@@ -294,6 +299,9 @@ func (ft *ftr) unop(steps *[]step, ins *ssa.UnOp, cur map[*cell]ex) error {
 		return ft.bind(steps, ins, kScalar, fx("~~~%s", x.e))
 	case token.MUL:
 		if g, ok := ins.X.(*ssa.Global); ok {
+			if _, _, ok := ft.resolvePtr(ins); ok {
+				return nil // *G is a pointer to a struct: a read-only root, resolved statically
+			}
 			return ft.loadGlobal(steps, ins, g)
 		}
 		r, path, ok := ft.resolvePtr(ins.X)
@@ -516,6 +524,16 @@ func (ft *ftr) call(steps *[]step, ins *ssa.Call, cur map[*cell]ex) error {
 				ft.declare(s.name, s.ty)
 			}
 			args = append(args, ref(s.name))
+		case sGlobalCell:
+			st, _ := s.g.Type().(*types.Pointer).Elem().(*types.Pointer)
+			if st == nil {
+				return ft.refuse(ins, "internal: global cell of %s", s.g.Name())
+			}
+			c, err := ft.cellAt(ft.globalRoot(s.g, st.Elem()), s.path)
+			if err != nil {
+				return ft.refuse(ins, "%v", err)
+			}
+			args = append(args, ref(c.name))
 		case sScalar, sMap:
 			v, err := ft.valOf(ins, common.Args[s.param])
 			if err != nil {
@@ -782,6 +800,9 @@ func (ft *ftr) bigCall(steps *[]step, ins *ssa.Call, callee *ssa.Function) error
 		return ft.refuse(ins, "(*big.Int).%s writes to a receiver that was not allocated in this function (aliasing is not modelled)", name)
 	}
 	for _, r := range *args[0].Referrers() {
+		if recv.bcell != nil {
+			break // an in-place update of a cell: every later read sees the new value
+		}
 		if r != ssa.Instruction(ins) {
 			return ft.refuse(ins, "receiver %s of the mutating method %s is used elsewhere (`%s`): aliasing is not modelled", args[0].Name(), name, r)
 		}
@@ -849,6 +870,10 @@ func (ft *ftr) bigCall(steps *[]step, ins *ssa.Call, callee *ssa.Function) error
 	}
 	v := ft.env[ins]
 	v.owned = true
+	if recv.bcell != nil {
+		ft.curNow[recv.bcell] = v.e
+		v.bcell = recv.bcell
+	}
 	ft.env[ins] = v
 	return nil
 }
